@@ -88,7 +88,10 @@ def valuations(symbols, rnd, n, systematic=False):
     if not symbols:
         return [{}]
     if systematic:
-        return [dict(zip(symbols, p)) for p in itertools.permutations(range(len(PYCLASSES)), len(symbols))]
+        perms = list(itertools.permutations(range(len(PYCLASSES)), len(symbols)))
+        if len(perms) > 100:
+            perms = rnd.sample(perms, 60)
+        return [dict(zip(symbols, p)) for p in perms]
     out = []
     for _ in range(n):
         kind = rnd.random()
